@@ -109,6 +109,10 @@ class Explorer:
             self._commit(term)
             return True
         if not can_t and not can_f:
+            if self.scope_terms:
+                # inside a merged arm that is dead on this path: the result is a don't-care
+                self.trace.append(["b", False, "implied"])
+                return False
             raise _Abort()
         # implied by the path condition (and the enclosing merged arms): nothing to record in pc
         self.trace.append(["b", can_t, "implied"])
@@ -136,6 +140,11 @@ class Explorer:
         self.trace.append(["c", v, not more, list(tried)])
         self._commit(sym.term == v)
         return v
+
+    def may_hold(self, term):
+        """Is `term` satisfiable under the current path condition and scopes?  unknown counts as yes."""
+        r = timed_check(self.solver, *self.scope_terms, term)
+        return r != z3.unsat
 
     class _Scope:
         def __init__(self, ex, term):
